@@ -133,7 +133,7 @@ static inline void verif_udivmod(u64 n, u64 d)
 #  ifndef VERIF_MEM_CELLS
 #    define VERIF_MEM_CELLS 12
 #  endif
-extern u64 verif_mem_addr[VERIF_MEM_CELLS];
+extern u32 verif_mem_addr[VERIF_MEM_CELLS];
 extern u8 verif_mem_val[VERIF_MEM_CELLS];
 #  define VERIF_MEM_FRAME(raw) __CPROVER_object_whole(verif_mem_val)   /* assigns-clause target standing for "the DSP memory" */
 static inline unsigned verif_mem_cell(u64 i)
@@ -145,16 +145,28 @@ static inline unsigned verif_mem_cell(u64 i)
     if (i >= VERIF_RAW_SIZE) { verif_outcome = VERIF_CRASH; __CPROVER_assume(0); }
 #  endif
     unsigned k = VERIF_MEM_CELLS;
-#  define VERIF_CELL(n) if ((n) < VERIF_MEM_CELLS && k == VERIF_MEM_CELLS && verif_mem_addr[(n) < VERIF_MEM_CELLS ? (n) : 0] == i) k = (n);
+#  define VERIF_CELL(n) if ((n) < VERIF_MEM_CELLS && k == VERIF_MEM_CELLS && verif_mem_addr[(n) < VERIF_MEM_CELLS ? (n) : 0] == (u32)i) k = (n);
     VERIF_CELL(0) VERIF_CELL(1) VERIF_CELL(2) VERIF_CELL(3) VERIF_CELL(4) VERIF_CELL(5) VERIF_CELL(6) VERIF_CELL(7)
     VERIF_CELL(8) VERIF_CELL(9) VERIF_CELL(10) VERIF_CELL(11) VERIF_CELL(12) VERIF_CELL(13) VERIF_CELL(14) VERIF_CELL(15)
     __CPROVER_assume(k < VERIF_MEM_CELLS);        /* outside the chosen footprint: this choice of cells does not cover the execution */
     return k;
 }
 static inline u8 VERIF_RAW_READ(const u8 *p, u64 i) { (void)p; return verif_mem_val[verif_mem_cell(i)]; }
+/* side-effect-free reader for specifications and contract clauses (no outcome is recorded; an index outside memory or outside the
+ * footprint makes the clause's path vanish, like any other footprint miss) */
+static inline u8 VERIF_RAW_PEEK(const u8 *p, u64 i)
+{
+    (void)p;
+    unsigned k = VERIF_MEM_CELLS;
+    VERIF_CELL(0) VERIF_CELL(1) VERIF_CELL(2) VERIF_CELL(3) VERIF_CELL(4) VERIF_CELL(5) VERIF_CELL(6) VERIF_CELL(7)
+    VERIF_CELL(8) VERIF_CELL(9) VERIF_CELL(10) VERIF_CELL(11) VERIF_CELL(12) VERIF_CELL(13) VERIF_CELL(14) VERIF_CELL(15)
+    __CPROVER_assume(k < VERIF_MEM_CELLS && i < VERIF_RAW_SIZE);
+    return verif_mem_val[k];
+}
 static inline void VERIF_RAW_WRITE(u8 *p, u64 i, u8 v) { (void)p; verif_mem_val[verif_mem_cell(i)] = v; }
 #else
 static inline u8 VERIF_RAW_READ(const u8 *p, u64 i) { if (i >= VERIF_RAW_SIZE) verif_native_exit(VERIF_CRASH, "access outside DSP memory"); return p[i]; }
+static inline u8 VERIF_RAW_PEEK(const u8 *p, u64 i) { return i < VERIF_RAW_SIZE ? p[i] : 0; }
 static inline void VERIF_RAW_WRITE(u8 *p, u64 i, u8 v) { if (i >= VERIF_RAW_SIZE) verif_native_exit(VERIF_CRASH, "access outside DSP memory"); p[i] = v; }
 #endif
 
